@@ -1,9 +1,11 @@
 #!/bin/sh
-# usage: tools_mut.sh <repo-rel-file> <sed-expr> <check-args...> ; applies sed to /repo file, runs ./check, restores
+# usage: tools_mut.sh <repo-rel-file> <sed-expr> <cmd...> ; applies sed to /repo file, runs cmd (cwd /verif), restores
 f=/repo/$1; shift; e=$1; shift
 cp $f /var/tmp/mut.bak
+trap 'cp /var/tmp/mut.bak '$f'' EXIT INT TERM PIPE
 sed -i "$e" $f
 if cmp -s $f /var/tmp/mut.bak; then echo "MUTATION DID NOT APPLY"; fi
-(cd /verif && "$@")
-echo "rc=$?"
+(cd /verif && "$@") > /var/tmp/mut.out 2>&1
+echo "rc=$?" >> /var/tmp/mut.out
 cp /var/tmp/mut.bak $f
+cat /var/tmp/mut.out
